@@ -35,16 +35,23 @@ package verifier
 //@   loop 11 invariant -1 <= rangeindex11 && rangeindex11 < len(queryStep.Evals) && forall(k, 0, rangeindex11 + 1, canonQE(queryStep.Evals[k]))
 //@   loop 12 invariant -1 <= rangeindex && rangeindex < len(proof.OpeningProof.FinalPoly.Coeffs) && forall(k, 0, rangeindex + 1, canonQE(proof.OpeningProof.FinalPoly.Coeffs[k]))
 
+// configuration well-formedness (build-time data, never witness values)
+//@ def cd_ok(cd) = cd_small(cd) && params_ok(cd.FriParams) && cd.Config.NumChallenges <= pow2(16) && cd.Config.FriConfig.NumQueryRounds <= pow2(32)
+//@ def vchip_ok(c) = chipok(c.glChip) && chipok(c.friChip.gl) && chipok(c.poseidonGlChip.Gl) && cd_ok(c.commonData) && cd_small(c.friChip.commonData) && params_ok(c.friChip.friParams)
+
 //@ func NewVerifierChip(api frontend.API, commonCircuitData types.CommonCircuitData) (res *VerifierChip)
 //@   props C17 C03 C04
 //@   circuit sound-only
-//@   ensures chipok(res.glChip)
+//@   requires cd_ok(commonCircuitData)
+//@   ensures vchip_ok(res)
 
 //@ func (c *VerifierChip) GetPublicInputsHash(publicInputs []gl.Variable) (res poseidon.GoldilocksHashOut)
-//@   props C17
+//@   props C17 C11 C09
 //@   circuit
-//@   flag trusted
-//@   ensures true
+//@   requires chipok(c.poseidonGlChip.Gl)
+//@   honest forall(k, 0, len(publicInputs), publicInputs[k].Limb < pow2(144) * P)
+//@   ghost reduced []gl.Variable = callresult("poseidon.GoldilocksChip.HashNoPad", 0)
+//@   ensures forall(k, 0, 4, canon(res[k]))
 
 // ------------------------------------------------------------------ Fiat-Shamir transcript (C11): plonky2 get_challenges
 // views of the challenger after each stage; d = circuit digest, pih = public-input hash, n = num_challenges
@@ -89,9 +96,9 @@ package verifier
 //@        res.FriChallenges.FriQueryIndices[k].Limb == ch_get_val(ch_getn_st(ch_get_st(fri_after_pow(tr_v8(verifierData.CircuitDigest, publicInputsHash, proof.WiresCap, c.commonData.Config.NumChallenges, proof.PlonkZsPartialProductsCap, proof.QuotientPolysCap, ops.Batches[0].Values, ops.Batches[1].Values), proof.OpeningProof.CommitPhaseMerkleCaps, proof.OpeningProof.FinalPoly.Coeffs, proof.OpeningProof.PowWitness.Limb)), k)))
 
 //@ func (c *VerifierChip) Verify(proof variables.Proof, publicInputs []gl.Variable, verifierData variables.VerifierOnlyCircuitData)
-//@   props C17
+//@   props C17 C14
 //@   circuit sound-only
-//@   requires chipok(c.glChip)
+//@   requires vchip_ok(c)
 //@   ensures canonProof(proof)
 
 // The fixed wrapper: four 128-bit public values pack the sixteen 32-bit plonky2 public inputs, big-endian.
@@ -100,6 +107,7 @@ package verifier
 //@ func (c *CircuitFixed) Define(api frontend.API) (err error)
 //@   props C03
 //@   circuit sound-only
+//@   requires cd_ok(c.CommonCircuitData)
 //@   ensures[count] implies(err == nil, len(c.ProofWithPis.PublicInputs) == 16)
 //@   ensures[limb-width] implies(err == nil, forall(k, 0, 16, c.ProofWithPis.PublicInputs[k].Limb < pow2(32)))
 //@   ensures[packing] implies(err == nil, forall(j, 0, 4, c.PublicInputs[j] == pack32(c.ProofWithPis.PublicInputs, 4*j)))
@@ -117,4 +125,5 @@ package verifier
 //@ func (c *VerifierCircuit) Define(api frontend.API) (err error)
 //@   props C04
 //@   circuit sound-only root
+//@   requires cd_ok(c.CommonCircuitData)
 //@   ensures[key-pinned] implies(err == nil, pinned(c.VerifierData))
